@@ -123,7 +123,7 @@ def _stage1_plans(quick):
         for closer in (False, True):
             for block in (True, False):
                 kw = dict(nt=3, closer=closer, m=1 if block else 2, block=block, reqs=1, stream=not block,
-                          outcomes=("ok", "fail"))
+                          outcomes=("ok", "fail") if (block or not closer) else ("ok",))
                 plans.append((f"as-is 3 threads block={block} closer={closer}", kw,
                               live_d8 if (closer and block) else live_ok, []))
         plans.append(("as-is 2x2 closer block=False", dict(nt=2, closer=True, m=1, block=False, reqs=2,
